@@ -246,6 +246,10 @@ void  XMLBigDecimal::parseDecimal(const XMLCh* const toParse
         }
     }
 
+    // A decimal needs at least one digit: a lone '.' is not a number
+    if ((endPtr - startPtr) == 1 && *startPtr == chPeriod)
+        ThrowXMLwithMemMgr(NumberFormatException, XMLExcepts::XMLNUM_Inv_chars, manager);
+
     // Strip leading zeros
     while (*startPtr == chDigit_0)
         startPtr++;
@@ -346,6 +350,10 @@ void  XMLBigDecimal::parseDecimal(const XMLCh*         const toParse
             ThrowXMLwithMemMgr(NumberFormatException, XMLExcepts::XMLNUM_Inv_chars, manager);
         }
     }
+
+    // A decimal needs at least one digit: a lone '.' is not a number
+    if ((endPtr - startPtr) == 1 && *startPtr == chPeriod)
+        ThrowXMLwithMemMgr(NumberFormatException, XMLExcepts::XMLNUM_Inv_chars, manager);
 
     // Strip leading zeros
     while (*startPtr == chDigit_0)
